@@ -81,6 +81,25 @@ def run (args : List (Nat × Nat)) : Db → List Sk → Db
 /-- process death: the open transaction is rolled back when the file is reopened -/
 def crash (db : Db) : Db := { committed := db.committed, work := db.committed, inTx := false }
 
+/-- Statement number `j` of the operation (position in its skeleton, BEGIN = 0) FAILS — a storage fault: disk full, I/O error, a file that
+    stays locked: the statements before it have run, the failing one has no effect, the Python code does not continue the operation.
+    `rollsBack` is what the store method does then: roll the open transaction back before passing the error on (the connection is as after
+    a reopen), or leave the transaction open with what has run so far still pending. -/
+def runFault (rollsBack : Bool) (args : List (Nat × Nat)) (db : Db) (sk : List Sk) (j : Nat) : Db :=
+  let db' := run args db (sk.take j)
+  if rollsBack then crash db' else db'
+
+/-- does statement `s`, executed with the call arguments `args`, leave the record under key `k` of table `t` in place?
+    (everything but a DELETE of that very key does: an INSERT adds, an UPDATE changes the value or the flag of a row that stays) -/
+def spares (args : List (Nat × Nat)) (t k : Nat) : Sk → Bool
+  | .del t' a => !(t' == t && (args.getD a (0, 0)).1 == k)
+  | _ => true
+
+/-- a sequence of operations (each: its call arguments and the statements that run), one after the other on the same connection -/
+def runOps : Db → List (List (Nat × Nat) × List Sk) → Db
+  | db, [] => db
+  | db, o :: rest => runOps (run o.1 db o.2) rest
+
 /-- the connection's current view -/
 def view (db : Db) : List Table := if db.inTx then db.work else db.committed
 
